@@ -48,16 +48,21 @@ _BOUNDS = dict(max_paths=64, max_decisions=96, max_forks_per_site=24)
 class Aff2:
     """base + a*t + b*s per component: one shape parameter depending on BOTH variables"""
 
-    def __init__(self, env, name, dim):
+    def __init__(self, env, name, dim, s_default=None):
         sh = (dim,) if dim > 1 else ()
         self.base, self.a, self.b = env.tensor(name + "0", sh), env.tensor(name + "1", sh), env.tensor(name + "2", sh)
         self.e = [SH.elems(env, x) for x in (self.base, self.a, self.b)]
+        self.s_default = s_default
 
     def tp(self):
         base, a, b = self.base, self.a, self.b
 
         def f(t, s):
             return base + a * t + b * s
+
+        if self.s_default is not None:  # s is an OPTIONAL argument of the user's function (declared default)
+            def f(t, s=self.s_default):  # noqa: F811
+                return base + a * t + b * s
 
         return f
 
@@ -83,6 +88,14 @@ def circle_mixed(env, tag="C"):
     c, r = SH.Aff(env, tag + "c", 2, "s"), Aff2(env, tag + "r", 1)
     o = O.OBall(c.oracle(), r.oracle(), 2)
     return SH.Sh("Circle[c(s),r(t,s)]", tp.domains.Circle(X, c.tp(), r.tp()), o, TS, [("x", 2)], bd_volume=o.surface)
+
+
+def circle_optional_s(env, tag="C"):
+    """radius r(t, s=1.0): s has a declared default, so only t is a NECESSARY variable -- a supplied s is honoured all the same"""
+    X = tp.spaces.R2("x")
+    c, r = SH.Aff(env, tag + "c", 2, None), Aff2(env, tag + "r", 1, s_default=1.0)
+    o = O.OBall(c.oracle(), r.oracle(), 2)
+    return SH.Sh("Circle[r(t,s=1)]", tp.domains.Circle(X, c.tp(), r.tp()), o, TS, [("x", 2)], bd_volume=o.surface)
 
 
 def interval_ts(env, tag="I", var="x"):
@@ -847,6 +860,17 @@ def cases(tier):
                 cs.append(necessary_case(name, mk, info, fix, "exact"))
                 rest = [v for v, _ in pv if v not in fix]
                 cs.append(necessary_case(name, mk, info, fix, "missing:" + rest[0]))
+    # a variable that is only OPTIONAL for the user's function (declared default): fixing it alone, before or after t
+    optional = [("Circle[r(t,s=1)]", circle_optional_s, dict(fam="prim2"))]
+    for opn, op in (("+", SH.union), ("-", SH.cut), ("&", SH.inter)):
+        optional.append(("(Circle[r(t,s=1)]%sParallelogram)" % opn,
+                         (lambda env, op=op: op(circle_optional_s(env, tag="A"), SH.parallelogram(env, tag="B"))), dict(fam="bool", kind=opn)))
+    # (fixing t alone is not claimed: all NECESSARY arguments are then known, the function is evaluated with its declared
+    # default for s, and a later s has nothing left to bind to -- the semantics of a default, not a defect)
+    for name, mk, info in optional:
+        for fix in ({"s"}, {"t", "s"}):
+            cs.append(agree_case(name, mk, info, fix, "contains", 2 if len(fix) < 2 else 1))
+            cs.append(agree_case(name, mk, info, fix, "volume", 2 if len(fix) < 2 else 1))
     for op in ("cut_contained", "union_disjoint"):
         cs.append(flag_case(op, "volume"))
         cs.append(flag_case(op, "boundary_volume"))
